@@ -12,6 +12,7 @@ sys.path.insert(0, str(Path(__file__).resolve().parent.parent / 'translate'))
 import lib  # noqa
 import c04_cfg  # noqa
 import c04_offsets  # noqa
+import c04_format  # noqa
 
 PID = 'C04'
 ARITY = {'line': 2, 'spring': 2, 'tri': 3, 'quad': 4, 'tet': 4, 'pyr': 5, 'prism': 6, 'hex': 8,
@@ -417,6 +418,84 @@ Proof.
 Qed.
 Check C04_reader_offsets.
 Print Assumptions C04_reader_offsets.
+Goal True. idtac "@@ end_offsets". Abort.
+"""
+# second scratch file (only when C04_reader_offsets holds): the reader parametrised by the translated
+# offsets (ReadParam.read_ucd_at src_offs) IS Model.read_ucd, and the round trip holds for it
+TRANSLATED_READER_V = OFFSETS_V + r"""
+(* the round trip stated directly over the translated offsets *)
+From Coq Require Import String List.
+From FV.C04 Require Import Text Model Proofs ReadParam PropsReader.
+From FV.C04.gen Require Import UcdCfg.
+Definition src_offs : offs := {|
+  o_nodal_header_line := s_nodal_header_line; o_elemental_header_line := s_elemental_header_line;
+  o_nodes_lo := s_nodes_lo; o_nodes_hi := s_nodes_hi; o_elems_lo := s_elems_lo; o_elems_hi := s_elems_hi;
+  o_nnames_lo := s_nnames_lo; o_nnames_hi := s_nnames_hi; o_nrows_lo := s_nrows_lo; o_nrows_hi := s_nrows_hi;
+  o_enames_lo := s_enames_lo; o_enames_hi := s_enames_hi; o_erows_lo := s_erows_lo; o_erows_hi := s_erows_hi;
+  o_node_first_col := s_node_first_col; o_elem_type_col := s_elem_type_col;
+  o_elem_first_col := s_elem_first_col; o_data_first_col := s_data_first_col |}.
+Theorem C04_reader_offsets_agree : agree src_offs.
+Proof. intros N E DN DE ND NE H1 H2. exact (C04_reader_offsets N E DN DE ND NE H1 H2). Qed.
+Theorem C04_translated_reader_is_reader :
+  forall (V : Type) (vparse : str -> option V) lines,
+    read_ucd_at V vparse element_types src_offs lines = read_ucd V vparse element_types lines.
+Proof. intros. apply C04_reader_at_is_reader. exact C04_reader_offsets_agree. Qed.
+Theorem C04_ucd_roundtrip_translated_reader :
+  forall (V : Type) (vprint : V -> str) (vparse : str -> option V),
+    (forall v, vparse (vprint v) = Some v) -> (forall v, tokenb (vprint v) = true) ->
+    cfg_ok UcdCfg.cfg = true ->
+    forall m : mesh V, wf V element_types m = true ->
+      roundtrip_at V vprint vparse element_types src_offs UcdCfg.cfg m = Ok (first_order V element_types m).
+Proof. intros. apply C04_ucd_roundtrip_reader_at; auto. exact C04_reader_offsets_agree. Qed.
+Goal True. idtac "@@ translated_reader". Abort.
+Print Assumptions C04_ucd_roundtrip_translated_reader.
+Print Assumptions C04_translated_reader_is_reader.
+"""
+
+# per-run obligation: the writer's text format translated from the tree under test (gen/UcdFormat.v, s_*)
+# equals the constants Model.write_ucd is shown to use (Format.v, m_*), and the shape theorems restated
+# over the translated constants
+FORMAT_V = r"""From Coq Require Import String List.
+Import ListNotations.
+From FV.C04 Require Import Text Model Format.
+From FV.C04.gen Require Import UcdCfg UcdFormat.
+Theorem C04_writer_format :
+  s_sep = m_sep /\ s_csv_header = m_csv_header /\ s_unit_suffix = m_unit_suffix
+  /\ s_top_fields = m_top_fields /\ s_na_rep = S "NaN".
+Proof. repeat split; reflexivity. Qed.
+(* hence: the first line of every file the model writes, in terms of the translated constants *)
+Theorem C04_written_first_line :
+  forall (V : Type) (vprint : V -> str) (m : mesh V) f,
+    write_ucd V vprint element_types UcdCfg.cfg m = Ok f ->
+    hd_error f = Some (join s_sep (map (render_top V element_types m) s_top_fields)).
+Proof.
+  intros V vprint m f H. destruct C04_writer_format as (E1 & _ & _ & E4 & _). rewrite E1, E4.
+  exact (write_first_line V vprint element_types UcdCfg.cfg m f H).
+Qed.
+(* and the shape of a data section *)
+Theorem C04_written_data_section :
+  forall (V : Type) (vprint : V -> str) by_id ids v vars lines,
+    data_block V vprint by_id ids (v :: vars) = Ok lines ->
+    exists rows,
+      lines = join s_sep (print_nat (length (v :: vars)) :: map (fun x => print_nat (width (snd x))) (v :: vars))
+              :: map (fun x : str * table V => (fst x ++ s_unit_suffix)%list) (v :: vars)
+              ++ map (fun r : row V => join s_sep (print_Z (fst r) :: map vprint (snd r))) rows.
+Proof.
+  intros V vprint by_id ids v vars lines H. destruct C04_writer_format as (E1 & _ & E3 & _ & _).
+  rewrite E1, E3. exact (data_block_format V vprint by_id ids v vars lines H).
+Qed.
+(* non-vacuity: a mesh that is written, and its first line *)
+From FV.C04 Require Import Corr PropsReader.
+Example C04_written_first_line_example :
+  exists f, write_ucd str tprint element_types UcdCfg.cfg ex_mesh = Ok f /\ hd_error f = Some (S "2 2 1 1 0").
+Proof.
+  exists (match write_ucd str tprint element_types UcdCfg.cfg ex_mesh with Ok f => f | Err _ => [] end).
+  split; vm_compute; reflexivity.
+Qed.
+Goal True. idtac "@@ writer_format". Abort.
+Print Assumptions C04_writer_format.
+Print Assumptions C04_written_first_line.
+Print Assumptions C04_written_data_section.
 """
 
 HEADER = ['From Coq Require Import ZArith String List. Import ListNotations.',
@@ -696,6 +775,11 @@ def main(ctx):
         proof_ok, log = ctx.build_props('C04/Props.v', extra_targets=['C04/Corr.vo'])
         if not proof_ok:
             ctx.notes['build_log_tail'] = log[-1500:]
+        else:
+            # second props file: the reader parametrised by its offsets (ReadParam.v)
+            proof_ok, log = ctx.build_props('C04/PropsReader.v')
+            if not proof_ok:
+                ctx.notes['build_log_tail'] = log[-1500:]
     else:
         for n in lib.theorem_names(lib.COQ / 'C04' / 'Props.v'):
             ctx.obligations.append({'name': n, 'discharged': False, 'assumptions': [],
@@ -715,10 +799,39 @@ def main(ctx):
         for nm in ('C04_cfg_ok', 'C04_ucd_roundtrip_unconditional'):
             ctx.obligations.append({'name': nm, 'discharged': cfg_is_ok, 'assumptions': ax, 'note': note})
     ctx.notes['cfg_ok'] = cfg_is_ok
+    # 2e. per-run obligation: translated writer format = the model's (additive, round 6).  Not part of the
+    #     alarm policy: the format is pinned byte for byte by every correspondence case; an unread region or
+    #     a failed obligation is recorded in the evidence, the failing input comes from the correspondence.
+    FMT_REGION = 'femio/formats/ucd/write_ucd.py:UCDWriter text format (to_csv arguments, first line, unit suffix)'
+    try:
+        fmt, sha = c04_format.translate(str(lib.REPO))
+        ctx.sources[FMT_REGION] = sha
+        fmt_err = None
+    except (c04_format.TranslateError, SyntaxError, OSError, RecursionError) as e:
+        fmt, fmt_err = c04_format.BASELINE, f'{type(e).__name__}: {e}'
+    try:
+        fmt_text = c04_format.emit(fmt)
+    except c04_format.TranslateError as e:
+        fmt_text, fmt_err = c04_format.emit(c04_format.BASELINE), f'{type(e).__name__}: {e}'
+    lib.write_if_changed(lib.COQ / 'C04' / 'gen' / 'UcdFormat.v', fmt_text)
+    ctx.notes['writer_format'] = {'translated': fmt_err is None, 'reason': fmt_err,
+                                  'value': {k: v for k, v in fmt.items()}}
+    if tie_ok and proof_ok:
+        fmt_ok, axf, notef = False, [], f'format region not read ({fmt_err}); tie of this region: H (byte comparison)'
+        if fmt_err is None:
+            ok, log, _ = lib.coq_make(['C04/gen/UcdFormat.vo', 'C04/Format.vo'])
+            rcf, outf, errf = ctx.coq_eval('WriterFormat', FORMAT_V) if ok else (1, '', log)
+            fmt_ok = rcf == 0
+            tf = lib.parse_marked(outf).get('writer_format', '')
+            axf = [] if tf.count('Closed under the global context') == 3 else \
+                re.findall(r'^([A-Za-z0-9_.\']+)\s*:', tf, flags=re.M)
+            notef = '' if fmt_ok else ('translated format constants differ from the model\'s: ' + errf[-300:])
+        for nm in ('C04_writer_format', 'C04_written_first_line', 'C04_written_data_section'):
+            ctx.obligations.append({'name': nm, 'discharged': fmt_ok, 'assumptions': axf, 'note': notef})
     # 2c. per-run obligation: translated reader offsets = the positions the model reads at
     offsets_ok, offsets_reachable_diff = None, False
     if tie_ok and proof_ok:
-        ok, log, _ = lib.coq_make(['C04/gen/UcdOffsets.vo', 'C04/Offsets.vo'])
+        ok, log, _ = lib.coq_make(['C04/gen/UcdOffsets.vo', 'C04/Offsets.vo', 'C04/PropsReader.vo'])
         rc, out, err = ctx.coq_eval('ReaderOffsets', OFFSETS_V) if ok else (1, '', log)
         offsets_ok = rc == 0
         ax = [] if 'Closed under the global context' in out else re.findall(r'^([A-Za-z0-9_.\']+)\s*:', out, flags=re.M)
@@ -739,6 +852,19 @@ def main(ctx):
                     else 'differences only on header counts no written file has', '-> widened correspondence')
         ctx.obligations.append({'name': 'C04_reader_offsets', 'discharged': offsets_ok, 'assumptions': ax,
                                 'note': note})
+        # 2d. with it: ReadParam.read_ucd_at <translated offsets> = Model.read_ucd on every file, and the
+        #     round trip for the reader that uses the translated offsets
+        tr_ok, ax2, note2 = False, [], 'not attempted: C04_reader_offsets does not hold'
+        if offsets_ok:
+            rc2, out2, err2 = ctx.coq_eval('TranslatedReader', TRANSLATED_READER_V)
+            tr_ok = rc2 == 0
+            t2 = lib.parse_marked(out2).get('translated_reader', '')
+            ax2 = [] if t2.count('Closed under the global context') == 2 else \
+                re.findall(r'^([A-Za-z0-9_.\']+)\s*:', t2, flags=re.M)
+            note2 = '' if tr_ok else err2[-300:]
+        for nm in ('C04_reader_offsets_agree', 'C04_translated_reader_is_reader',
+                   'C04_ucd_roundtrip_translated_reader'):
+            ctx.obligations.append({'name': nm, 'discharged': tr_ok, 'assumptions': ax2, 'note': note2})
         ctx.notes['translator_degraded'] = [{'region': r, 'reason': w} for r, w in degraded]
         ctx.notes['reader_offsets'] = off_text.split('From Coq Require Import Arith.')[-1].strip().splitlines()
     # 3. hypothesis exercised
